@@ -92,9 +92,10 @@ def run(tier, seed, res):
         batches.append(mb.Batch(P, "hdr %d %d\n" % (P, T), [g[0] for g in gen if g[0]], tag="P%dT%d" % (P, T)))
     res.coverage["excluded_by_construction:C22-F1_map_operator_rank_without_tiles(cases enlarged)"] = ex1
     res.coverage["excluded_by_construction:C22-F2/F3_reductions(cases dropped)"] = ex2
-    _regress(b, res)
+    bg = mb.in_background(_regress, b, res)
     mb.run_batches(PROP, b, batches, res, "cases", timeout=300 if quick else 1800, max_parallel=4,
                    tq_ms=5000 if quick else 20000)
+    bg.join()
     floor = 40 if quick else 1000
     if not res.violations and res.distinct_nontrivial < floor:
         res.inconclusive = "only %d non-trivial cases executed (floor %d)" % (res.distinct_nontrivial, floor)
